@@ -41,7 +41,12 @@ func (c20) Components() map[string]string {
 }
 
 var c20Versions = []string{"0.9.0", "1.0.0-alpha", "1.0.0-alpha.1", "1.0.0-beta", "1.0.0-rc.1", "1.0.0", "1.0.0+build5", "1.0.1", "1.2.0", "1.10.0", "2.0.0", "2.0.0+a.b",
-	"1.0", "v1.0.0", "1.0.0.0", "01.0.0", "latest"}
+	"1.0", "v1.0.0", "1.0.0.0", "01.0.0", "latest",
+	// (appended later, so that recorded plans keep their meaning) pre-releases one of which is a proper prefix of another, by one, two and three identifiers
+	"1.0.0-rc", "1.0.0-rc.1.0.0", "1.0.0-alpha.1.2.3", "1.0.0-rc.1.0"}
+
+// c20ValidVersions indexes the valid semantic versions of c20Versions.
+var c20ValidVersions = []int64{0, 1, 2, 3, 4, 5, 6, 7, 8, 9, 10, 11, 17, 18, 19, 20, 17, 18, 20, 4}
 
 // semverParts parses a valid semantic version (SemVer 2.0.0); ok=false if invalid.
 func semverParts(v string) (nums [3]int, pre []string, ok bool) {
@@ -165,7 +170,7 @@ func (c20) Gen(r *rand.Rand, tier string, idx int) *core.Plan {
 		case x < 6:
 			v := int64(r.IntN(len(c20Versions)))
 			if r.IntN(4) != 0 {
-				v = int64(r.IntN(12)) // valid ones
+				v = c20ValidVersions[r.IntN(len(c20ValidVersions))] // valid ones
 			}
 			second := int64(0)
 			if r.IntN(6) == 0 {
